@@ -1338,6 +1338,29 @@ def one_point_mix(c, q_hi=3, q_lo=1, lo_first=True, degree=2, itype="cell", use_
 
 
 @builder
+def two_one_point_rules(c, which="qelem", itype="cell"):
+    """Two DIFFERENT one-point rules in one integral sharing a coefficient and the coordinates: the centroid rule of degree <= 1
+    next to a one-point quadrature element / a user-supplied one-point rule / the other order."""
+    V = c.V("Lagrange", 2)
+    f = Coefficient(V)
+    v = TestFunction(c.V("Lagrange", 1))
+    ct = basix.CellType[c.cell]
+    et = ct if itype == "cell" else basix.cell.subentity_types(ct)[-2][0]
+    d = len(basix.topology(et)) - 1
+    mid = np.asarray(basix.geometry(et)).mean(axis=0)
+    pt = np.array([0.55 * mid + 0.45 * np.asarray(basix.geometry(et))[0]])  # not the centroid
+    vol = basix.cell.volume(et)
+    g = exp(0.5 * f) * (1.0 + c.x[0])
+    if which == "qelem" and itype == "cell":
+        qe = basix.ufl.quadrature_element(c.cell, value_shape=(), points=pt, weights=np.array([vol]))
+        q = Coefficient(c.space(qe))
+        return g * v * measure(itype, metadata={"quadrature_degree": 1}) + q * g * v * measure(itype)
+    md = {"quadrature_rule": "custom", "quadrature_points": pt, "quadrature_weights": np.array([vol])}
+    a, b_ = g * v * measure(itype, metadata={"quadrature_degree": 1}), 1.7 * g * g * v * measure(itype, metadata=md)
+    return a + b_ if which != "custom_first" else b_ + a
+
+
+@builder
 def two_forms(c, degree=1):
     V = c.V("Lagrange", degree)
     u, v = TrialFunction(V), TestFunction(V)
